@@ -72,6 +72,35 @@ class CbScn:
                     ch.setcallback(cb)
             except BaseException as e:  # noqa: BLE001
                 w.observe("setcallback-exc", type(e).__name__, str(e)[:80])
+            if P.get("drop_handle"):
+                # the callback is the only thing left of this channel: drop every handle to it
+                got_end = em.Event()
+                calls_cb = cb
+
+                def cb2(x):
+                    calls_cb(x)
+                    if x == END:
+                        got_end.set()
+
+                # re-register is impossible: the callback set above already is `cb`; use its END detection below
+                same = ctl is ch
+                del ch
+                if same:
+                    ctl = None  # the exec channel itself is the callback channel
+                for _ in range(400):
+                    if calls and calls[-1] == END or P["end"] == "block":
+                        break
+                    em.sleep(0.05)
+                if P["end"] == "block":
+                    em.sleep(2.0)
+                em.sleep(1.0)
+                w.exploring = False
+                S.ctx["calls"] = list(calls)
+                w.observe("main-done")
+                ctl = None
+                S.group.terminate(timeout=2.0)
+                w.observe("terminated")
+                return
             if P.get("local_close"):
                 # a local close from another thread racing with the end of the conversation
                 S.user(lambda: ch.close(), "closer")
@@ -244,6 +273,8 @@ def cases(tier):
                             continue
                         chan = "new" if end == "close" else "exec"
                         cs.append({"n": n, "k": k, "end": end, "chan": chan, "endmarker": endmarker, "delay": delay})
+                        if endmarker and not k and not delay:
+                            cs.append({"n": n, "k": k, "end": end, "chan": chan, "endmarker": True, "delay": delay, "drop_handle": True})
                         if endmarker and not k and end in ("body-end", "close", "error", "kill"):
                             cs.append({"n": n, "k": k, "end": end, "chan": chan, "endmarker": True, "delay": delay, "cb_close": True})
                             if not delay:
@@ -261,7 +292,7 @@ def run(tier: str, only=None) -> int:
     else:
         b_sync, b_stmt, cap = {"ps": 3, "free": 2}, {"ps": 1, "pl": 2, "free": 1}, 6000000
     for i, C in enumerate(cases(tier)):
-        name = f"cb/{i}:{C['end']}:n{C['n']}k{C['k']}:{'E' if C['endmarker'] else 'N'}:d{C['delay']}" + (":cbclose" if C.get("cb_close") else "") + (":localclose" if C.get("local_close") else "")
+        name = f"cb/{i}:{C['end']}:n{C['n']}k{C['k']}:{'E' if C['endmarker'] else 'N'}:d{C['delay']}" + (":cbclose" if C.get("cb_close") else "") + (":localclose" if C.get("local_close") else "") + (":dropped" if C.get("drop_handle") else "")
         if only and only not in name:
             continue
         P = dict(C, transport="popen", backend="thread")
